@@ -23,6 +23,7 @@ import (
 	errorsmod "cosmossdk.io/errors"
 	"cosmossdk.io/store/prefix"
 	wasmkeeper "github.com/CosmWasm/wasmd/x/wasm/keeper"
+	wasmvmtypes "github.com/CosmWasm/wasmvm/v2/types"
 	sdk "github.com/cosmos/cosmos-sdk/types"
 	"github.com/ethereum/go-ethereum/common"
 	keeperutil "github.com/palomachain/paloma/v2/util/keeper"
@@ -308,8 +309,8 @@ func (w *world) md(a args) valsettypes.MsgMetadata {
 	return valsettypes.MsgMetadata{Creator: w.addrOf(a.As).String(), Signers: []string{w.addrOf(a.Who).String()}}
 }
 
-func (w *world) runTx(who int, msg sdk.Msg) outcome {
-	r, err := w.e.RunAs(w.e.User(who-1), msg)
+func (w *world) runTx(who int, msg ...sdk.Msg) outcome {
+	r, err := w.e.RunAs(w.e.User(who-1), msg...)
 	if err != nil {
 		return outcome{blockErr: err}
 	}
@@ -325,6 +326,80 @@ func (w *world) runWasm(custom string) outcome {
 		return outcome{blockErr: berr}
 	}
 	return fromErr(err)
+}
+
+// createMsg / the wasm create_job document for the job an action describes
+func (w *world) createMsg(a args) *schedulertypes.MsgCreateJob {
+	def, pay := w.jobJSON(a)
+	other := w.addrOf(a.Who%nAcc + 1)
+	return &schedulertypes.MsgCreateJob{Metadata: w.md(a), Job: &schedulertypes.Job{ID: jobNames[a.ID], Owner: other,
+		Routing:    schedulertypes.Routing{ChainType: "evm", ChainReferenceID: chainNames[a.Chain]},
+		Definition: []byte(def), Payload: []byte(pay), IsPayloadModifiable: a.Mod, EnforceMEVRelay: a.Mev}}
+}
+
+func (w *world) wasmCreate(a args) []byte {
+	def, pay := w.jobJSON(a)
+	job := map[string]any{"job_id": jobNames[a.ID], "chain_type": "evm", "chain_reference_id": chainNames[a.Chain],
+		"definition": def, "payload": pay, "payload_modifiable": a.Mod, "is_mev": a.Mev}
+	bz, _ := json.Marshal(map[string]any{"scheduler_msg": map[string]any{"create_job": map[string]any{"job": job}}})
+	return bz
+}
+
+// discarded runs the messages [CreateJob id, ExecuteJob id] on a state branch that is never committed and then
+// delivers an empty block.  Simulate/tx: the application's simulation entry point (gas estimation) on a really
+// signed transaction; Simulate/wasm: the contract's two messages dispatched on a cache context that is dropped;
+// RolledBack: a delivered transaction with a third message that always fails (execution of an unknown job id).
+// Whatever happened inside is recorded in `inner`, the request itself always reports "discarded" unless a delivered
+// transaction that should have failed succeeded.
+func (w *world) discarded(act string, a args) (outcome, string) {
+	e := w.e
+	exec := &schedulertypes.MsgExecuteJob{Metadata: w.md(a), JobID: jobNames[a.ID]}
+	switch {
+	case act == "RolledBack":
+		o := w.runTx(a.Who, w.createMsg(a), exec, &schedulertypes.MsgExecuteJob{Metadata: w.md(a), JobID: "job-none"})
+		if o.ok {
+			return o, "delivered"
+		}
+		return outcome{cs: "discarded", blockErr: o.blockErr}, firstLine(o.log)
+	case a.Via == "tx":
+		acc := e.User(a.Who - 1)
+		tx := e.SignTx(acc, w.createMsg(a), exec)
+		_, _, err := e.App.Simulate(tx)
+		inner := "sim ok"
+		if err != nil {
+			inner = "sim: " + firstLine(err.Error())
+		}
+		_, berr := e.DeliverBlock(nil) // also re-reads the account's sequence
+		return outcome{cs: "discarded", blockErr: berr}, inner
+	default:
+		ctx := e.Ctx().WithEventManager(sdk.NewEventManager())
+		cc, _ := ctx.CacheContext() // never written
+		inner := "dropped ok"
+		raw, _ := hex.DecodeString(payloads[0])
+		x, _ := json.Marshal(map[string]any{"scheduler_msg": map[string]any{"execute_job": map[string]any{"job_id": jobNames[a.ID],
+			"sender": w.contract.String(), "payload": base64.StdEncoding.EncodeToString(raw)}}})
+		for _, m := range [][]byte{w.wasmCreate(a), x} {
+			if _, _, _, err := w.router.DispatchMsg(cc, w.contract, "", wasmvmtypes.CosmosMsg{Custom: m}); err != nil {
+				inner = "dropped: " + firstLine(err.Error())
+				break
+			}
+		}
+		_, berr := e.DeliverBlock(nil)
+		return outcome{cs: "discarded", blockErr: berr}, inner
+	}
+}
+
+// query asks the scheduler's job query (what clients and the wasm query plugin see)
+func (w *world) query(id int) (map[string]any, bool) {
+	resp, err := w.e.App.SchedulerKeeper.QueryGetJobByID(w.e.Ctx(), &schedulertypes.QueryGetJobByIDRequest{JobID: jobNames[id]})
+	if err != nil || resp == nil || resp.Job == nil {
+		return emptyJob(), false
+	}
+	return w.projectJob(jobNames[id], resp.Job), true
+}
+
+func emptyJob() map[string]any {
+	return map[string]any{"id": -1, "idf": -1, "owner": 0, "chain": 0, "target": 0, "payload": 0, "sp": "", "den": 0, "mod": false, "mev": false}
 }
 
 func (w *world) do(act string, a args) outcome {
@@ -406,11 +481,34 @@ func runHistory(t *testing.T, em *drv.Emitter, h drv.History) {
 		if a.Sp == "" {
 			a.Sp = "bare"
 		}
-		if (a.Via == "tx") != (a.Who >= 1 && a.Who <= nAcc) || w.addrOf(a.Who) == nil || w.addrOf(a.As) == nil {
+		if st.Act != "Query" && ((a.Via == "tx") != (a.Who >= 1 && a.Who <= nAcc) || w.addrOf(a.Who) == nil || w.addrOf(a.As) == nil) {
 			t.Fatalf("history %d step %d: caller %d via %s as %d", h.H, i+1, a.Who, a.Via, a.As)
 		}
-		ev := map[string]any{"h": h.H, "i": i + 1, "act": st.Act, "args": a, "res": "fail", "cs": "", "code": 0, "log": ""}
-		o := w.do(st.Act, a)
+		ev := map[string]any{"h": h.H, "i": i + 1, "act": st.Act, "args": a, "res": "fail", "cs": "", "code": 0, "log": "", "q": emptyJob(), "inner": ""}
+		var o outcome
+		override := ""
+		switch st.Act {
+		case "Simulate", "RolledBack":
+			var inner string
+			o, inner = w.discarded(st.Act, a)
+			ev["inner"] = inner
+			if !o.ok {
+				override = "discarded"
+			}
+		case "Query":
+			q, found := w.query(a.ID)
+			ev["q"] = q
+			o = outcome{cs: "query"}
+			override = "notfound"
+			if found {
+				override = "found"
+			}
+			if _, berr := w.e.DeliverBlock(nil); berr != nil {
+				o.blockErr = berr
+			}
+		default:
+			o = w.do(st.Act, a)
+		}
 		if o.blockErr != nil {
 			ev["res"], ev["cs"], ev["code"], ev["log"] = "blockfail", "block", -1, firstLine(o.blockErr.Error())
 			ev["obs"] = map[string]any{"jobs": []any{}, "added": []any{}, "removed": -1}
@@ -421,6 +519,9 @@ func runHistory(t *testing.T, em *drv.Emitter, h drv.History) {
 			ev["res"] = "ok"
 		} else {
 			ev["cs"], ev["code"], ev["log"] = o.cs, o.code, o.log
+		}
+		if override != "" {
+			ev["res"] = override
 		}
 		ev["obs"] = w.observe()
 		em.Emit(ev)
